@@ -48,6 +48,39 @@ type faultStore struct {
 	mu     sync.Mutex
 	armed  int
 	onFail func(key string)
+	// read faults: the next Query under the set's element namespace (/s/: go-ds-crdt set.Rmv,
+	// i.e. a Delete on the crdt datastore) fails
+	armedRead  int
+	onReadFail func(prefix string)
+}
+
+func (f *faultStore) ArmRead(n int) { f.mu.Lock(); f.armedRead += n; f.mu.Unlock() }
+
+// DisarmRead removes pending read faults and returns how many there were.
+func (f *faultStore) DisarmRead() int {
+	f.mu.Lock()
+	defer f.mu.Unlock()
+	n := f.armedRead
+	f.armedRead = 0
+	return n
+}
+
+func (f *faultStore) Query(q query.Query) (query.Results, error) {
+	f.mu.Lock()
+	trip := f.armedRead > 0 && strings.Contains(q.Prefix, "/s/")
+	var cb func(string)
+	if trip {
+		f.armedRead--
+		cb = f.onReadFail
+	}
+	f.mu.Unlock()
+	if trip {
+		if cb != nil {
+			cb(q.Prefix)
+		}
+		return nil, errInjected
+	}
+	return f.Datastore.Query(q)
 }
 
 func (f *faultStore) trip(key string) bool {
@@ -292,6 +325,7 @@ func newReplica(name string, names *hx.Names, o replicaOpts, emit func(ev string
 	r := &replica{name: name, h: rh, inner: h, ps: psub, dht: idht, names: names, emit: emit}
 	r.store = &faultStore{Datastore: inmem.New()}
 	r.store.onFail = func(key string) { emit("storefail", "r", name) }
+	r.store.onReadFail = func(prefix string) { emit("readfail", "r", name) }
 
 	cfg := &crdt.Config{}
 	cfg.Default()
